@@ -9,7 +9,7 @@ Not decided: termination, index safety inside the numeric kernels, overflow, OOM
 import re
 
 from ..build import AnalysisBroken
-from ..bytedom import Sym, ev, char_origin, mentions
+from ..bytedom import Sym, ev, char_origin, mentions, unq
 from ..util import (site, guards, prior_exit_guards, assigned_vars, local_defs, const_value,
                     macro_of_const, stores_to_field, member_accesses, ends_in_jump)
 from ..model import access_mode
@@ -21,6 +21,10 @@ def describe(ck):
     ck.rule("R05a", "every subscript of a table of <= 256 entries whose index is computed from a plain char is, for "
                     "all 256 byte values not excluded by the dominating guards, inside the table")
     ck.rule("R05b", "the residue-code loop assigns msa_seq.s[j] on every path, from the alphabet table")
+    ck.rule("R05d", "every call whose callee can fail because of the input has its status consumed (RUN/RUNP/test/return); main returns EXIT_FAILURE after ERROR")
+    ck.rule("R05e", "a local pointer that is NULL-tested somewhere is not dereferenced on a path from a NULL definition without assignment or test")
+    ck.rule("R05g", "no path in the call graph from an API function to exit/abort")
+    ck.rule("R05i", "a local pointer published through an out-parameter is not released afterwards on any path without reassignment")
     ck.not_decided += ["termination of all loops", "index safety inside the DP / bit-parallel kernels",
                        "integer overflow for huge inputs", "behaviour when malloc fails"]
     ck.assumptions += ["<ctype.h> predicates have C-locale semantics (kalign never calls setlocale)",
@@ -112,7 +116,7 @@ def r05a(ck, prog, functions=None, rule="R05a"):
             B, tname = table_bound(F, base)
             if B is None or B > SMALL:
                 continue
-            origins = [o for o in char_origin(idx) if o.ty == "char"]
+            origins = [o for o in char_origin(idx) if unq(o.ty) == "char"]
             sym = None
             domain = None
             idx_expr = idx
@@ -123,7 +127,7 @@ def r05a(ck, prog, functions=None, rule="R05a"):
                 if i0.k == "DeclRefExpr" and i0.d.get("dk") == "Var" and not i0.d.get("g"):
                     defs = local_defs(F, i0.d["did"])
                     if len(defs) == 1 and defs[0][0] is not None:
-                        o2 = [o for o in char_origin(defs[0][0]) if o.ty == "char"]
+                        o2 = [o for o in char_origin(defs[0][0]) if unq(o.ty) == "char"]
                         if len(o2) == 1:
                             s0 = Sym(text=o2[0].text(), ty=o2[0].ty)
                             lit = _literal_domain(prog, F, o2[0])
@@ -327,6 +331,374 @@ def run(ck, progs):
         n = r05a(ck, prog)
         ck.floor("R05a", n, 12, "char-indexed small-table subscripts")
         r05b(ck, prog)
+        r05d(ck, prog)
+        n = r05e(ck, prog)
+        ck.floor("R05e", n, 20, "NULL-tested local pointers")
+        r05g(ck, prog)
+        n = r05i(ck, prog)
+        ck.floor("R05i", n, 20, "out-parameter publications")
+    from ..controls import run_control
+    run_control(ck, ck.work, "R05a", "c05.c", r05a, "r05a")
+    run_control(ck, ck.work, "R05e", "c05.c", r05e, "r05e")
+    run_control(ck, ck.work, "R05i", "c05.c", r05i, "r05i")
+    run_control(ck, ck.work, "R05d", "c05.c", r05d_calls, "r05d")
     return ("Repository-specific static rules over the resolved AST/CFG of every library and CLI unit: "
             "byte-domain evaluation of every char-derived index into a small table under its dominating guards; "
             "must-assign on every path of the residue-code loop; (further rules listed under 'rules').")
+
+
+# --------------------------------------------------------------------------- R05e
+def _is_null(e):
+    e0 = e.strip(casts=True)
+    return "NULL" in e.mac or "NULL" in e0.mac or (e0.k == "IntegerLiteral" and e0.d["v"] == 0)
+
+
+def _ptr_deref_use(ref):
+    """DeclRef `ref` (pointer variable) is loaded and immediately dereferenced: p->x, *p, p[i]"""
+    p, c = ref.up()
+    if p is None:
+        return False
+    if p.k == "MemberExpr" and p.d.get("arrow"):
+        return True
+    if p.k == "UnaryOperator" and p.d["op"] == "*":
+        return True
+    if p.k == "ArraySubscriptExpr" and c.within(p.kids[0]):
+        return True
+    return False
+
+
+def r05e(ck, prog, functions=None):
+    """Contradiction rule: a local pointer that one part of the function tests against NULL must not be
+    dereferenced on a path from a NULL definition that crosses neither an assignment nor a test."""
+    n_inst = 0
+    for F in (functions or prog.all_functions):
+        if "/tests/" in F.file or F.cfg is None:
+            continue
+        locals_ = {}
+        for n in F.body.find("DeclStmt"):
+            for dd in n.d["decls"]:
+                if dd.get("dkind") == "Var" and dd.get("ty", "").endswith("*") and not dd.get("static"):
+                    locals_[dd["did"]] = (dd, n)
+        for did, (dd, dstmt) in locals_.items():
+            refs = list(F.body.refs(did=did))
+            derefs, barriers, sources, tests = [], [], [], []
+            init = None
+            for kid in dstmt.kids:
+                if kid.role == "declinit" and kid.decl is dd:
+                    init = kid
+            if init is not None and _is_null(init):
+                sources.append(dstmt)
+            for r in refs:
+                mode = access_mode(r)
+                p, c = r.up()
+                if mode == "write":
+                    asg = p
+                    if _is_null(asg.kids[1]):
+                        sources.append(asg)
+                    else:
+                        barriers.append(asg)
+                elif mode in ("rmw", "addr"):
+                    barriers.append(p)
+                elif _ptr_deref_use(r):
+                    derefs.append(r)
+                else:
+                    # value use: is it a test?  (if(p), !p, p == NULL, p != NULL, p && ...)
+                    q = r
+                    is_test = False
+                    for a in r.ancestors():
+                        if a.k in ("IfStmt", "WhileStmt", "ForStmt", "DoStmt", "ConditionalOperator"):
+                            cnd = a.child("cond")
+                            if cnd is not None and r.within(cnd):
+                                is_test = True
+                            break
+                        if a.k in ("CallExpr", "ArraySubscriptExpr", "MemberExpr"):
+                            break
+                        if a.k in ("CompoundStmt", "DeclStmt", "ReturnStmt"):
+                            break
+                    if is_test:
+                        tests.append(r)
+                        barriers.append(r)
+            if not sources or not derefs or not tests:
+                continue
+            cfg = F.cfg
+            bpos = [x for x in (cfg.position(b) for b in barriers) if x is not None]
+            n_inst += 1
+            where0 = site(prog, dstmt, dd["name"])
+            ck.inst("R05e", where0, "%s: pointer %s has %d NULL definition(s), %d NULL test(s), %d dereference(s)" % (
+                F.name, dd["name"], len(sources), len(tests), len(derefs)), prog.config)
+            def loops_of(x):
+                return [a for a in x.ancestors() if a.k in ("ForStmt", "WhileStmt", "DoStmt")]
+            test_loops = set()
+            for t in tests:
+                test_loops |= {id(l) for l in loops_of(t)}
+            for d in derefs:
+                dpos = cfg.position(d)
+                if dpos is None:
+                    continue
+                # only dereferences that share a loop with a NULL test of the same pointer: both run per
+                # iteration, so the test's belief ("may be NULL here") applies to the dereference too
+                if not any(id(l) in test_loops for l in loops_of(d)):
+                    continue
+                for s in sources:
+                    spos = cfg.position(s)
+                    if spos is None:
+                        continue
+                    if cfg.reaches(spos, dpos, avoid=bpos):
+                        where = site(prog, d, "%s deref" % dd["name"])
+                        ck.violation("R05e", "R05e/%s/%s" % (F.name, dd["name"]), where,
+                                     "%s is NULL after %s and reaches the dereference %s without crossing an assignment "
+                                     "or a NULL test, although %s tests it against NULL at %s: one of the two is wrong" % (
+                                         dd["name"], site(prog, s), d.up()[0].text()[:60], F.name,
+                                         site(prog, tests[0])), prog.config,
+                                     path=[site(prog, s), where])
+                        break
+    return n_inst
+
+
+# --------------------------------------------------------------------------- R05i
+def _is_releaser(name):
+    return name is not None and ("free" in name.lower())
+
+
+def r05i(ck, prog, functions=None):
+    """After `*out = p` publishes a local owning pointer, no path may release p unless p or *out is reassigned."""
+    n_inst = 0
+    for F in (functions or prog.all_functions):
+        if "/tests/" in F.file or F.cfg is None:
+            continue
+        cfg = F.cfg
+        for asg in F.body.find("BinaryOperator"):
+            if asg.d["op"] != "=":
+                continue
+            lhs = asg.kids[0].strip()
+            rhs = asg.kids[1].strip(casts=True)
+            if not (lhs.k == "UnaryOperator" and lhs.d["op"] == "*"):
+                continue
+            tgt = lhs.kids[0].strip()
+            if not (tgt.k == "DeclRefExpr" and tgt.d.get("dk") == "Parm"):
+                continue
+            if not (rhs.k == "DeclRefExpr" and rhs.d.get("dk") == "Var" and rhs.ty.endswith("*") and not rhs.d.get("g")):
+                continue
+            did = rhs.d["did"]
+            spos = cfg.position(asg)
+            if spos is None:
+                continue
+            # barriers: any later assignment to the local, or to *out
+            barriers = []
+            for n in F.body.walk():
+                if n.k == "BinaryOperator" and n.d["op"] == "=" and n is not asg:
+                    l = n.kids[0].strip()
+                    if (l.k == "DeclRefExpr" and l.d["did"] == did) or l.text() == lhs.text():
+                        barriers.append(n)
+            bpos = [x for x in (cfg.position(b) for b in barriers) if x is not None]
+            rels = []
+            for c in F.body.find("CallExpr"):
+                if _is_releaser(c.callee) and any(a.strip(casts=True).k == "DeclRefExpr" and
+                                                  a.strip(casts=True).d["did"] == did for a in c.args):
+                    rels.append(c)
+            n_inst += 1
+            where = site(prog, asg, "%s=%s" % (lhs.text(), rhs.text()))
+            ck.inst("R05i", where, "%s publishes local %s through out-parameter %s; %d release call(s) of %s in the function" % (
+                F.name, rhs.text(), tgt.text(), len(rels), rhs.text()), prog.config)
+            for c in rels:
+                cpos = cfg.position(c)
+                if cpos is not None and cfg.reaches(spos, cpos, avoid=bpos):
+                    ck.violation("R05i", "R05i/%s/%s" % (F.name, rhs.text()), where,
+                                 "after %s the callee still releases %s at %s on a path with no reassignment: the caller "
+                                 "owns the object and frees it again (double free / use after free)" % (
+                                     asg.text(), rhs.text(), site(prog, c)), prog.config,
+                                 path=[where, site(prog, c)])
+    return n_inst
+
+
+# --------------------------------------------------------------------------- R05g
+EXITS = ("exit", "abort", "_exit", "_Exit", "quick_exit")
+
+
+def api_functions(prog):
+    api = set()
+    for name, ps in prog.protos.items():
+        for p in ps:
+            if p["loc"].split(":")[0].endswith("include/kalign/kalign.h"):
+                api.add(name)
+    if len(api) < 6:
+        raise AnalysisBroken("slot: fewer than 6 API functions declared in include/kalign/kalign.h")
+    return api
+
+
+def r05g(ck, prog):
+    from ..callgraph import CallGraph
+    cg = CallGraph(prog)
+    api = api_functions(prog)
+    reach = cg.reachable(api)
+    ck.inst("R05g", "lib/include/kalign/kalign.h", "%d API functions reach %d functions; none may be exit/abort" % (
+        len(api), len(reach)), prog.config)
+    for e in EXITS:
+        if e in reach:
+            path = cg.path_to(e)
+            caller = path[-2]
+            call = cg.sites[(caller, e)][0]
+            ck.violation("R05g", "R05g/%s/%s" % (caller, e), site(prog, call),
+                         "library function %s calls %s() and is reachable from the API: %s" % (caller, e, " -> ".join(path)),
+                         prog.config, path=path)
+    for e in EXITS:
+        for c in cg.callers(e):
+            F = cg.defined[c]
+            if "/lib/" in F.file and c not in reach:
+                ck.info("R05g", "%s() in %s calls %s() but is unreachable from the API (dead code)" % (c, prog.rel(F.file), e))
+    return cg, reach
+
+
+# --------------------------------------------------------------------------- R05d
+ALLOC_MACROS = {"MMALLOC", "MREALLOC", "MFREE", "galloc"}
+# status functions whose only failure is an internal-invariant ASSERT that no input can trigger; one line of reason each
+R05D_INTERNAL = {
+    "merge_codes": "ASSERT(min != -1) guards an invariant of the alphabet constructors: both letters are assigned "
+                   "constants before every merge (checked by R14c/R13b); arguments are character constants only",
+}
+
+
+def status_functions(prog):
+    """name -> set of failure causes {'input', 'alloc'} for repo functions returning int with a FAIL exit"""
+    direct = {}
+    calls = {}
+    for F in prog.all_functions:
+        if "/tests/" in F.file:
+            continue
+        if F.d.get("ret") not in ("int",) and not F.d.get("ret", "").endswith("*"):
+            continue
+        causes = set()
+        has_fail = any(("FAIL" in r.kids[0].mac or "NULL" in r.kids[0].mac or "EXIT_FAILURE" in r.kids[0].mac)
+                       for r in F.returns() if r.kids)
+        if not has_fail:
+            continue
+        for g in F.body.find("GotoStmt"):
+            if g.d["label"] != "ERROR":
+                continue
+            macs = set(g.mac)
+            if macs & ALLOC_MACROS:
+                causes.add("alloc")
+            elif "RUN" in macs or "RUNP" in macs:
+                pass        # propagated: resolved through the call edges below
+            elif "ASSERT" in macs or "DASSERT" in macs:
+                causes.add("pre")       # precondition on arguments / object state
+            else:
+                causes.add("input")     # an explicit ERROR_MSG: a user-facing failure
+        cs = set()
+        for c in F.body.find("CallExpr"):
+            if c.callee and ("RUN" in c.mac or "RUNP" in c.mac or _status_tested(c)):
+                cs.add(c.callee)
+                if c.callee in ("fopen",):
+                    causes.add("input")
+        direct[F.name] = causes
+        calls[F.name] = cs
+    changed = True
+    while changed:
+        changed = False
+        for f, cs in calls.items():
+            for g in cs:
+                if g in direct and not direct[g] <= direct[f]:
+                    direct[f] |= direct[g]
+                    changed = True
+    return direct
+
+
+def _status_tested(call):
+    p, c = call.up(casts=True)
+    if p is None:
+        return False
+    if p.k == "BinaryOperator" and p.d["op"] in ("==", "!=", "="):
+        return True
+    if p.k in ("IfStmt", "WhileStmt") and c.role == "cond":
+        return True
+    if p.k == "UnaryOperator" and p.d["op"] == "!":
+        return True
+    if p.k == "ReturnStmt":
+        return True
+    if p.k == "DeclStmt" or c.role == "declinit":
+        return True
+    if p.k == "CallExpr":
+        return True
+    return False
+
+
+def _dropped(call):
+    p, c = call.up(casts=True)
+    if p is None:
+        return True
+    if p.k in ("CompoundStmt", "LabelStmt", "CaseStmt", "DefaultStmt"):
+        return True
+    if p.k in ("IfStmt", "ForStmt", "WhileStmt", "DoStmt") and c.role in ("then", "else", "body", "init", "inc"):
+        return True
+    if p.k.startswith("OMP"):
+        return True
+    if p.k == "CStyleCastExpr" and p.ty == "void":
+        return True
+    return False
+
+
+def r05d(ck, prog):
+    st = r05d_calls(ck, prog)
+    r05d_main(ck, prog)
+    return st
+
+
+def r05d_calls(ck, prog):
+    st = status_functions(prog)
+    n_inst = 0
+    dropped_info = {}
+    for F in prog.all_functions:
+        if "/tests/" in F.file:
+            continue
+        for c in F.body.find("CallExpr"):
+            g = c.callee
+            if g not in st:
+                continue
+            n_inst += 1
+            if not _dropped(c):
+                continue
+            causes = st[g]
+            where = site(prog, c, g)
+            if "input" in causes and g not in R05D_INTERNAL:
+                ck.inst("R05d", where, "%s drops the status of %s (may fail by input)" % (F.name, g), prog.config)
+                ck.violation("R05d", "R05d/%s/%s" % (F.name, g), where,
+                             "%s ignores the status of %s(), which can fail because of the input (it reaches an "
+                             "ERROR_MSG/ASSERT or fopen): the failure is not reported and execution continues on "
+                             "incomplete state" % (F.name, g), prog.config)
+            else:
+                dropped_info.setdefault(g, [set(), 0, causes])
+                dropped_info[g][0].add(F.name)
+                dropped_info[g][1] += 1
+    for g, (callers, n, causes) in sorted(dropped_info.items()):
+        ck.info("R05d", "status of %s() [fails by: %s] dropped at %d site(s) in %s — %s" % (
+            g, ",".join(sorted(causes)) or "never", n, ",".join(sorted(callers)),
+            R05D_INTERNAL.get(g, "only allocation failures / argument preconditions: outside the property's fault model")))
+    ck.inst("R05d", "whole program", "%d call sites of %d status-returning functions examined" % (n_inst, len(st)), prog.config)
+    ck.floor("R05d", n_inst, 2 if "controls" in prog.repo else 150, "status call sites")
+    return st
+
+
+def r05d_main(ck, prog):
+    # main(): every ERROR exit returns EXIT_FAILURE
+    for F in prog.all_functions:
+        if F.name != "main" or "/src/" not in F.file:
+            continue
+        lab = F.label("ERROR")
+        if lab is None:
+            raise AnalysisBroken("R05d: main in %s has no ERROR label" % F.file)
+        cfg = F.cfg
+        lpos = cfg.position(lab.child("sub")) if lab.child("sub") else None
+        rets = F.returns()
+        bad = []
+        for r in rets:
+            rp = cfg.position(r)
+            if lpos is not None and rp is not None and (cfg.reaches(lpos, rp) or cfg.dominates(lpos, rp)):
+                v = r.kids[0] if r.kids else None
+                if v is None or not ("EXIT_FAILURE" in v.mac or (v.cv is not None and v.cv != 0)):
+                    bad.append(r)
+        where = site(prog, lab, "main ERROR exit")
+        ck.inst("R05d", where, "%s: returns after the ERROR label must be EXIT_FAILURE" % prog.rel(F.file), prog.config)
+        for r in bad:
+            ck.violation("R05d", "R05d/main/%s-exit" % prog.rel(F.file), site(prog, r),
+                         "main returns %s after the ERROR label: a failure is reported as success" % (
+                             r.kids[0].text() if r.kids else "nothing"), prog.config)
